@@ -189,11 +189,18 @@ class Environment(object):
     def close(self):
         """Shutdown server"""
 
-        try:
-            self.conn
-        except AttributeError:
-            pass
-        else:
-            self.conn.send_bytes(dumps(('close', (), {})))
-            self.conn.close()
-            del self.conn
+        with self.prepare_lock:
+            # a server may still be starting in background (see prepare()),
+            # wait for it, otherwise it would outlive the session
+            prepare_thread = self.prepare_thread
+            if prepare_thread:
+                prepare_thread.join()
+
+            try:
+                self.conn
+            except AttributeError:
+                pass
+            else:
+                self.conn.send_bytes(dumps(('close', (), {})))
+                self.conn.close()
+                del self.conn
